@@ -200,9 +200,8 @@ def run_c07(pid, tier):
     # (6) how the file is stored does not matter: a symbolic link to a file of another name, a path through a linked directory,
     #     a path with `..` after a linked directory (the OS resolves it through the link's target) -- implementation against the statement
     scen = []; wants = []
-    for _ in range(6 if tier == "quick" else 40):
-        c = rand_bytes(rng, rng.choice([1, 30, 400]), "rand") or b"x"; other = c + b"?"
-        k = rng.choice(["link", "linkdir", "dotdot"])
+    for k, size in [(k0, n0) for k0 in ("link", "linkdir", "dotdot") for n0 in ([1, 400, 70000] if tier == "quick" else [0, 1, 28, 29, 30, 400, 70000, 300000])]:
+        c = rand_bytes(rng, size, "rand"); other = c + b"?"
         if k == "link":
             steps = [('W', 'real/pkg-1.2/style.min.css', c), ('M', 'st'), ('Y', 'st/current.css', '../real/pkg-1.2/style.min.css')]; path = 'st/current.css'
         elif k == "linkdir":
@@ -454,7 +453,7 @@ def run_c09(pid, tier):
         pr = list(urls)
         for u in urls[:3]:
             pr += [u[:-1], u + b"x", u.swapcase(), u[:-5] + bytes([u[-5] ^ 1]) + u[-4:] if len(u) > 5 else u, u.replace(b"-", b"_", 1)]
-        for u in urls[:2]: pr += [b"/" + u, u + b"/", b" " + u, u + b" ", b"./" + u, u + b"\0"]
+        for u in urls[:2]: pr += [b"/" + u, u + b"/", b" " + u, u + b" ", b"./" + u, u + b"\0", u + b"?v=2", u + b"#top", u + b"?", b"?" + u, u + b";x", u + b"%00"]
         pr += [b"", b"a", b"~", b"to/", b"/"]
         hist.append(h); probes.append(pr)
     # all orders of small sets
